@@ -962,15 +962,15 @@ class Builder:
                 return None
         i = phis[0]
         lv = self.leaves(args[i])
-        if not all(l.kind in ('const', 'undef') for l in lv):
+        if not all(l.kind in ('const', 'undef', 'unknown') for l in lv) or not any(l.kind == 'const' for l in lv):
             return None
 
         def rec(n):
             if n.kind == 'phi':
                 return self.mk('phi', args=[n.args[0], rec(n.args[1]), rec(n.args[2])],
                                at=n.origin[1] if n.origin else None)
-            if n.kind == 'undef':
-                return n
+            if n.kind in ('undef', 'unknown'):
+                return n          # an alternative that already failed to fold stays unknown
             vals = [a.val for a in args]
             vals[i] = n.val
             try:
